@@ -329,6 +329,8 @@ func decoders16(f *ssa.Function) (sites []be16Site, vals []ssa.Value) {
 }
 
 func runC12(r *Report) {
+	// delegating Read/Write wrappers on the client data path are transparent (R-C12-1)
+	checkDelegatingWrappers(r, "R-C12-1", "internal/utils/iocopy", "internal/client", "internal/client/mapping", "internal/client/transport", "internal/client/tunnel", "internal/client/socks5", "internal/stream")
 	const pkg = "internal/utils/iocopy"
 	bidi := r.need("R-C12-1", pkg, "Bidirectional")
 	udp := r.need("R-C12-2", pkg, "UDP")
